@@ -23,11 +23,11 @@ ASSUMPTIONS = ['tables hold only A/C/G/T and gaps (the statement is about files 
                'min-freq passed as a short decimal; exact rational used by the oracle']
 REQUIRED = {t: ['minfreq_drops_rows_with_3plus_samples', 'constant_rows', 'identical_sample_pairs', 'permutation_checked',
                 'threads:1', 'threads:2', 'threads:4', 'allow_ambiguous', 'pairs_checked',
-                'history:delete', 'history:merge', 'history_allow_ambiguous_minfreq_drops', 'large_tables', 'tables_over_8192_rows', 'tables_of_256+_samples', 'files_with_a_repeated_sample_name', 'files_under_a_bare_name_next_to_a_sibling', 'tables_of_513+_samples'] for t in ('quick', 'thorough')}
+                'history:delete', 'history:merge', 'history_allow_ambiguous_minfreq_drops', 'large_tables', 'tables_over_8192_rows', 'tables_of_256+_samples', 'files_with_a_repeated_sample_name', 'files_under_a_bare_name_next_to_a_sibling', 'tables_of_513+_samples', 'library_second_calls_compared'] for t in ('quick', 'thorough')}
 
 
 def builds(tier):
-    return ['rel', 'chk']
+    return ['rel', 'chk', 'harness']
 
 
 def plan(tier, seed, rng, scale):
@@ -277,6 +277,22 @@ def run_case(desc, ctx):
                         raise AssertionError('model inconsistency')
             if any(e[2] > 0 and 0 < e[3] < 1 for e in exp):
                 res.nontrivial.append(fingerprint([k, rows, mf, aa, thr]))
+            if desc['seed'] % 4 == 3 and not dup and not desc.get('nrows') and aa and (mf, aa, thr) == [s_ for s_ in settings if s_[1]][0]:
+                # library route (harness): the distances of a filtered array do not depend on whether distances were already
+                # asked for before the filter was applied (a second call inside one process)
+                outs_ = []
+                for op_ in ('dist', 'dist2'):
+                    ph = ctx.sh(ctx.bins['harness'], 'rt', 'mem', k, 1, ctx.path('h.skf'), op_, mf, '--', *fns, timeout=300)
+                    outs_.append(ph.stdout if ph.returncode == 0 else 'exit %d %s' % (ph.returncode, ph.stderr[-100:]))
+                res.evals += 1
+                # (the harness applies one combined filter, not the command's sequence of filters: the two library runs are compared
+                # with each other, the command-line figures are judged above)
+                badl = [] if outs_[0] == outs_[1] and not outs_[0].startswith('exit') else ['a second call gives other figures than a first call on the same state']
+                if badl:
+                    res.violate('C14:library-second-call', 'k=%d ns=%d min-freq=%s: distances asked for again after filtering (library route): %s' % (k, ns, mf, '; '.join(badl[:2])),
+                                {'rows': rows, 'first': outs_[0][:300], 'second': outs_[1][:300]})
+                else:
+                    res.count('library_second_calls_compared')
             if desc['seed'] % 5 == 2 and not dup and (mf, aa, thr) == settings[0]:
                 # the file under a bare name, next to a VALID but different file called <name>.skf of the other integer width
                 shutil.copy(ctx.path('t.skf'), ctx.path('panel'))
